@@ -41,10 +41,11 @@ LOOKUP = [
 
 def api_name(path):
     """griddle::map::HashMap::<K, V, S>::insert -> HashMap::insert ; <map::HashMap<..> as core::ops::Index<&Q>>::index -> HashMap::Index::index"""
-    m = re.match(r"^griddle::(?:map|set)::(\w+)::<.*>::(\w+)$", path)
-    if m:
+    # (the defining module is not part of an API name: `griddle::map::entry::Entry::<..>::insert` is still Entry::insert)
+    m = re.match(r"^griddle::(?:\w+::)*?(\w+)::<.*>::(\w+)$", path)
+    if m and not path.startswith("griddle::external_trait_impls::"):
         return "%s::%s" % (m.group(1), m.group(2))
-    m = re.match(r"^griddle::<(?:&'?\w* ?(?:mut )?)?(?:map|set)::(\w+)<.*> as ([\w:]+?)(?:<.*>)?>::(\w+)$", path)
+    m = re.match(r"^griddle::<(?:&'?\w* ?(?:mut )?)?(?:\w+::)*(\w+)<.*> as ([\w:]+?)(?:<.*>)?>::(\w+)$", path)
     if m:
         return "%s::%s::%s" % (m.group(1), m.group(2).split("::")[-1], m.group(3))
     return None
@@ -231,7 +232,7 @@ def rule_w_bound(ctx):
                    "allocates at most one table and reaches no all-at-once (linear) table operation, no unbounded mover and no unbounded loop with such events")
     ce = cost_engine(ctx)
     eps = entry_points(ctx)
-    Rc = ctx.facts.consts.get("%s::raw::R" % ctx.facts.crate, {}).get("val")
+    Rc = ctx.batch_const()
     if Rc != 8:
         R.viol("R", "src/raw/mod.rs", "the production batch size R is %s, the property states R = 8" % Rc)
     for name in KEY_ADDING:
